@@ -416,6 +416,44 @@ theorem torn_when_counter_aliases :
     simp only [aliasDev, pairProg, Prog.eval]
     split <;> simp
 
+/-! ### legacy MMIO: no generation mechanism, hence no untorn guarantee -/
+
+/-- On a legacy MMIO device the transport's generation is the constant 0 (`legacyView`). As soon as
+the configuration changes at all, **no** counter can make `Contract` hold — for any modulus and any
+closure: the untorn clause of C13 is therefore claimed for modern MMIO and PCI only. -/
+theorem legacy_contract_unsatisfiable {σ α : Type} (M : Nat) (p : Prog σ α) (dev : Nat → DevState σ)
+    (cnt : Nat → Nat) (hchg : ∃ t, (dev t).cfg ≠ (dev (t + 1)).cfg) :
+    ¬ Contract M p (legacyView dev) cnt := by
+  intro hC
+  obtain ⟨t, ht⟩ := hchg
+  have hb := hC.bump t (by simpa [legacyView] using ht)
+  have hg0 := hC.gen t
+  have hg1 := hC.gen (t + 1)
+  simp only [legacyView] at hg0 hg1
+  have hend : t + 1 ≤ iterEnd p (legacyView dev) t := by
+    unfold iterEnd; exact run_time_mono p (legacyView dev) (t + 1)
+  have hm := cnt_mono hC.mono (t + 1) _ hend
+  have hr := hC.rate t
+  by_cases hlt : cnt (t + 1) < cnt t + M
+  · have : cnt t = cnt (t + 1) :=
+      eq_of_mod_eq_of_lt (Nat.le_of_lt hb) hlt (by rw [← hg0, ← hg1])
+    omega
+  · omega
+
+/-- … and a torn value really is returned there: `goodDev` changes `(1,1)` to `(2,2)` and bumps its
+generation as a modern device must, but through a legacy transport the loop sees generation 0
+twice and returns `(1,2)`, which was never exposed. -/
+theorem legacy_read_can_tear :
+    readConsistent pairProg (legacyView goodDev) 1 0 = some ((1, 2), 4)
+      ∧ ∀ s, (1, 2) ≠ pairProg.eval ((legacyView goodDev) s).cfg := by
+  refine ⟨by decide, ?_⟩
+  intro s
+  simp only [legacyView, goodDev, pairProg, Prog.eval]
+  split <;> simp
+
+example (cnt : Nat → Nat) : ¬ Contract (2 ^ 32) pairProg (legacyView goodDev) cnt :=
+  legacy_contract_unsatisfiable _ _ _ _ ⟨1, by decide⟩
+
 /-! ### the scheduler device of the harness follows the contract -/
 
 theorem filter_le_mono (l : List Nat) (t : Nat) :
